@@ -165,6 +165,10 @@ func (p *impPkg) goType(e ast.Expr) *ity {
 			return tyByte
 		case "error":
 			return tyErr
+		case "int64": // mode h2f only: an Int in [-2^63, 2^63), every operation wraps explicitly
+			if p.tg.mode == "h2f" {
+				return &ity{k: "int64"}
+			}
 		}
 		if _, ok := p.structs[v.Name]; ok {
 			return &ity{k: "struct", name: v.Name}
@@ -235,7 +239,7 @@ func (p *impPkg) lty(t *ity, qual bool) string {
 		return t.name
 	case "elem":
 		return "F"
-	case "bigint":
+	case "bigint", "int64":
 		return "Int"
 	case "bool":
 		return "Bool"
@@ -280,7 +284,7 @@ func (p *impPkg) ltyA(t *ity, qual bool) string {
 
 func (p *impPkg) zero(t *ity) string {
 	switch t.k {
-	case "int", "byte", "uint64":
+	case "int", "byte", "uint64", "int64":
 		return "0"
 	case "bool":
 		return "false"
@@ -546,6 +550,11 @@ func (p *impPkg) translateFunc(name string) string {
 			if len(fl.Names) > 0 {
 				p.die(fl, "named results")
 			}
+			if _, isPtr := fl.Type.(*ast.StarExpr); isPtr && p.tg.mode == "h2f" && f.recvTy != nil && f.recvTy.k == "elem" && len(fd.Type.Results.List) == 2 {
+				// `func (z *Element) M(…) (*Element, error)`: the returned pointer is z or nil: Option F
+				f.results = append(f.results, p.goType(fl.Type))
+				continue
+			}
 			f.results = append(f.results, p.paramType(fl.Type))
 		}
 	}
@@ -620,6 +629,9 @@ func impPassOf(out string) string {
 	if strings.HasPrefix(b, "H2F_") || b == "H2FAll" {
 		return "H2F"
 	}
+	if strings.HasPrefix(b, "Set_") || b == "SetAll" {
+		return "Set"
+	}
 	return b
 }
 
@@ -633,7 +645,7 @@ func impPasses() []string {
 			res = append(res, p)
 		}
 	}
-	return append(res, "H2F")
+	return append(res, "H2F", "Set")
 }
 
 func runImp() {
@@ -655,6 +667,18 @@ func runImp() {
 		targets = append(targets, impTarget{dir: d, file: "element.go", ns: "H2F_" + n, out: "Imp/H2F_" + n + ".lean", funcs: []string{"SetBigInt", "Hash"}, elem: "Element", mode: "h2f"})
 	}
 	targets = append(targets, impTarget{dir: "ecc/bn254/fr", file: "element.go", ns: "H2F_generic", out: "Imp/H2F_generic.lean", funcs: []string{"SetBigInt", "Hash"}, elem: "Element", mode: "h2f"})
+	// the lenient setters SetBigInt / SetString / SetInt64 of every field package (C08; a pass of its own: Gen/Imp/Set_<pkg>.lean)
+	setFuncs := []string{"SetBigInt", "SetString", "SetInt64"}
+	for _, d := range fieldDirs {
+		n := leanName(d)
+		targets = append(targets, impTarget{dir: d, file: "element.go", ns: "Set_" + n, out: "Imp/Set_" + n + ".lean", funcs: setFuncs, elem: "Element", mode: "h2f"})
+	}
+	targets = append(targets, impTarget{dir: "ecc/bn254/fr", file: "element.go", ns: "Set_generic", out: "Imp/Set_generic.lean", funcs: setFuncs, elem: "Element", mode: "h2f"})
+	defer func() {
+		if impOnly == "" || impOnly == "Set" {
+			writeSetAll(expNames)
+		}
+	}()
 	defer func() {
 		if impOnly == "" || impOnly == "H2F" {
 			writeH2FAll(expNames)
@@ -693,7 +717,7 @@ func runImp() {
 			continue
 		}
 		impAbsParams, impAbsArgs = "", ""
-		h2fGeneric = tg.ns == "H2F_generic"
+		h2fGeneric = strings.HasSuffix(tg.ns, "_generic")
 		if tg.elem != "" && tg.mode == "" {
 			impAbsParams, impAbsArgs = " {F : Type} (mul : F → F → F) (one : F) (inv : F → F)", " mul one inv"
 		}
